@@ -2,6 +2,7 @@ package main
 
 import (
 	"math/rand"
+	"strconv"
 	"runtime"
 	"sync"
 	"sync/atomic"
@@ -62,6 +63,12 @@ func record(n int, seed int64, only string) {
 
 		// subscribers: Subscribe, keep receiving for ever; some unsubscribe later (and keep receiving)
 		nsubs := 1 + rng.Intn(3)
+		// one run in three is a long stream to few subscribers: the dispatcher drains the distributor and goes
+		// to wait many times while the event loop keeps adding (every message is one accept/receive race)
+		long := rng.Intn(3) == 0
+		if long {
+			nsubs = 1 + rng.Intn(2)
+		}
 		subNames := []string{"s1", "s2", "s3", "s4", "s5", "s6"}
 		var nameIdx atomic.Int64
 		startSub := func(r *rand.Rand, unsubLater bool) {
@@ -97,6 +104,9 @@ func record(n int, seed int64, only string) {
 		for k := 0; k < npubs; k++ {
 			name := []string{"p1", "p2"}[k]
 			nmsg := 1 + rng.Intn(4)
+			if long {
+				nmsg = 12 + rng.Intn(24)
+			}
 			r := rand.New(rand.NewSource(rng.Int63()))
 			sw.Add(1)
 			go func() {
@@ -105,7 +115,7 @@ func record(n int, seed int64, only string) {
 				for j := 1; j <= nmsg; j++ {
 					id := newID()
 					ctx := w.opCtx(id/100, false)
-					msg := name + "." + string(rune('0'+j))
+					msg := name + "." + strconv.Itoa(j)
 					w.call(id, id/100, "pub", "", msg)
 					w.guarded(id, func() string { w.b.Publish(ctx, msg); return "ok" })
 					yield(r, 3)
